@@ -148,6 +148,22 @@ CHECKS = {
                 "NA10860 approximate check not run in the quick tier.",
         "technique": "Lean 4 proof (field arithmetic over Rat, op-table case analysis) + metamorphic differential correspondence on pysam-written BAMs",
     },
+    "C08": {
+        "text": "Lean model of the RefSeq<->genome maps, the lookup sequence, the per-kind strand conversion of process_mutation, _reverse_op and "
+                "of what a variant denotes on a sequence (insertion after its anchor base). Machine-checked for every sequence, position and "
+                "allele: reverse complement is an involution; for deletions, insertions, deletion-insertions and (dot-free) multi-substitutions "
+                "applying the converted variant to the reverse-complemented sequence and orienting back equals applying the variant as written "
+                "(one theorem per kind = one position rule each); the conversion's position arithmetic yields exactly those offsets; _reverse_op "
+                "undoes the allele conversion. Tie: for every database x build the model's maps, lookup sequence and loaded variants are compared "
+                "with the real Gene, and the driver evaluates the haplotype equation and the reference-allele hypotheses on every variant "
+                "(shipped: quick 7 genes x 2 builds, thorough all 38 x 2; generated: random sequence, all kinds, both strands, alignment strings "
+                "with I/D); independent sequence-level Python oracle on the real Gene object.",
+        "design_ref": "DESIGN.md section 4 (C08)",
+        "note": "Multi-block mappings and dotted multi-substitutions are decided by evaluation per variant (finite, exhaustive for shipped "
+                "databases in the thorough tier) rather than by the list-level theorems. Insertion anchoring handed to indelpost/long-read "
+                "matching is exercised through C01/C16 runs, amino-acid effect inference is not modelled.",
+        "technique": "Lean 4 proof (list surgery under reverse complement) + exhaustive per-variant evaluation and differential correspondence with Gene",
+    },
 }
 
 NOT_YET = "check not built yet (work in progress; see DESIGN.md section 9 build order)"
